@@ -654,6 +654,7 @@ func main() {
 		rep.RunWorkers(16)
 		rep.Finish()
 	}
+	runtime.GOMAXPROCS(2) // (a worker parses one text at a time; 16 workers run side by side)
 	dir = kit.TempDir("c10")
 	defer os.RemoveAll(dir)
 	known := setupFiles()
